@@ -349,7 +349,7 @@ def main():
     variants = P.get("variants", [""])
     if tier == "quick" and len(variants) > 1:
         variants = [variants[0], variants[1 + seed % (len(variants) - 1)]]
-    all_r = []; sums = []; harness_notes = []; env_error = False; faults_fired = {}
+    all_r = []; sums = []; harness_notes = []; env_error = False; faults_fired = {}; gen_crashes = []
     timeout = P.get("timeout", {}).get(tier, 1500 if tier == "quick" else 7200)
     for fam in fams:
       for variant in variants:
@@ -394,6 +394,8 @@ def main():
                     notes.append("slice %s stopped after 40 aborted cases (each reported)" % x["args"][-1])
                 for y in r: y["variant"] = variant; y["bin"] = binp
                 all_r += r; sums.append(s)
+                mg = re.search(r"generator_crash=(\S+)", x["herr"])
+                if mg and mg.group(1) not in gen_crashes: gen_crashes.append(mg.group(1))
                 m = re.search(r"alloc_faults_fired=(\d+)", x["herr"])
                 if m and int(m.group(1)): faults_fired[fam] = faults_fired.get(fam, 0) + int(m.group(1))
     tot = merge_summaries(sums)
@@ -403,11 +405,14 @@ def main():
     # 5. classify
     # DESIGN section 6: a timed-out case is re-run alone before it is reported (a loaded machine can stall a worker for
     # longer than the per-case timeout; a genuine hang reproduces)
-    rerun_ok = 0
+    rerun_ok = 0; rerun_again = 0
     for x in [y for y in all_r if y["kind"] in ("VIOLATION", "SPECFAIL", "MISMATCH") and y["line"].rstrip().endswith("=> hang")][:40]:
+        if rerun_again >= 3: break          # genuine hangs reproduce: no need to wait for every one of them again
         r_, s_, raw_ = exec_lines(x["bin"], [x["line"]], known_ids, timeout=60)
         if s_ and s_.get("lines") == 1 and s_.get("pass") == 1:
             all_r.remove(x); rerun_ok += 1
+        else:
+            rerun_again += 1
     if rerun_ok:
         notes.append("%d case(s) reported as hang passed when re-run alone (machine load); not counted as failures" % rerun_ok)
     fails = [x for x in all_r if x["kind"] in ("VIOLATION", "SPECFAIL", "MISMATCH")]
@@ -485,6 +490,14 @@ def main():
                                     explanation="the correspondence between the Lean model (about which the theorems are proved) and the code no longer "
                                                 "checks at these cases, so the property is no longer shown to hold; no input violating the property itself was found"),
                                " no-failing-input-found"))
+    if gen_crashes:
+        # the library crashed (or hung) while a generator was calling it to build inputs for later cases (e.g. decoding what the
+        # encoder had just produced): a crash of the library on a generator-made input that no single case line carries
+        concrete = [v for v in violations if v[1] == ""]
+        violations.append((dict(kind="GENERATOR-CRASH", crashes=gen_crashes[:8],
+                                explanation="the library crashed or hung between two cases, inside a generator that calls the library to build its next "
+                                            "inputs; the classes and the index of the last completed case of the slice are listed"
+                                            + ("" if concrete else "; no single case line reproduces it")), "" if concrete else " no-failing-input-found"))
     if (failed_thms or src_hits or not proofs_ok) and not [v for v in violations if v[1] == ""]:
         violations.append((dict(kind="PROOF", theorems=failed_thms, source_audit=src_hits, build_ok=proofs_ok,
                                 axioms={t: ax.get(t, (False, ["?"]))[1] for t in theorems}, build_log=blog[-3000:] if not proofs_ok else "",
